@@ -136,7 +136,8 @@ class Dataset(collection.Collection):
         for field in self._fields.values():
             field.subset(idx, memo)
 
-        self._num_obs = int(np.sum(idx))
+        # Number of selected rows: idx may be a boolean mask or an array of row numbers
+        self._num_obs = len(np.arange(self._num_obs)[idx])
 
     def extend(self, other_dataset: "Dataset", meta_key=None) -> None:
         """Add observations from another dataset to the end of this dataset"""
